@@ -109,7 +109,7 @@ def observe(R, n, seed=None, ops=None):
     out = R.harness("c16", args, env=env, outdir=os.path.join(R.work, "c16_%s" % (seed if seed is not None else "main")))
     if not out:
         return None
-    res = R.coq_cases(out, label="C16 correspondence")
+    res = R.coq_cases(out, label="C16 correspondence", timeout=3000)
     if res is None:
         return None
     mism, viol, total = res
@@ -142,7 +142,7 @@ def run(R):
     R.coq_files(FILES)
     R.coq_property()
     R.audit()
-    n = 400 if R.tier == "quick" else 5000
+    n = 400 if R.tier == "quick" else 2000
     obs = observe(R, n, ops=24 if R.tier == "quick" else 32)
     total = hist = 0
     if obs:
